@@ -683,8 +683,22 @@ def averaging_accumulator(repo, col):
     from .dataflow import local_defs, names_in
     defs = local_defs(fn.node)
     rets = [s for s in stmts_of(fn.node) if isinstance(s, ast.Return)]
+    # the converter factory, and whatever callable it returns an instance of
+    # (a converter class introduced behind the factory)
+    builders = {"get_chunk_dtype_transformer"}
+    try:
+        fac = repo.func("data_types", "get_chunk_dtype_transformer")
+        for r_ in stmts_of(fac.node):
+            if isinstance(r_, ast.Return) and isinstance(r_.value, ast.Call) \
+                    and isinstance(r_.value.func, ast.Name):
+                builders.add(r_.value.func.id)
+    except Exception:
+        pass
+
+    def is_builder(c):
+        return (call_name(c) or "").split(".")[-1] in builders
     builds = [c for c in walk_local(fn.node) if isinstance(c, ast.Call)
-              and (call_name(c) or "").endswith("get_chunk_dtype_transformer")]
+              and is_builder(c)]
     def _is_input_dtype(e):
         if norm(e) == "%s.dtype" % arr_param:
             return True
@@ -705,8 +719,7 @@ def averaging_accumulator(repo, col):
     for r in rets:
         v = r.value
         if isinstance(v, ast.Call) and isinstance(v.func, ast.Call) and \
-                (call_name(v.func) or "").endswith(
-                    "get_chunk_dtype_transformer"):
+                is_builder(v.func):
             continue        # converter built and applied in one expression
         if not (isinstance(v, ast.Call) and isinstance(v.func, ast.Name)):
             ok = False
@@ -715,7 +728,7 @@ def averaging_accumulator(repo, col):
             continue
         vals = [d.value for d in defs.get(v.func.id, []) if d.value is not None]
         direct = [x for x in vals if isinstance(x, ast.Call) and
-                  (call_name(x) or "").endswith("get_chunk_dtype_transformer")]
+                  is_builder(x)]
         cached = [x for x in vals if x not in direct]
         for x in cached:
             # a cache lookup: its key must distinguish the output type
